@@ -93,7 +93,7 @@ class Edit:
 
 def apply_edits(src, lo, hi, edits, base_origin):
     """Return list[Piece] for src.text[lo:hi] with edits (absolute offsets) applied."""
-    edits = sorted(edits, key=lambda e: (e.start, e.prio))
+    edits = sorted(edits, key=lambda e: (e.start, 0 if e.end == e.start else 1, e.prio))
     pieces, pos = [], lo
     for e in edits:
         if e.start < pos:
